@@ -265,8 +265,9 @@ class Suite:
        oracle(req, impl_out) -> None | str : property oracle evaluated on the implementation's own output
        nontrivial(req, out) -> bool
        env: extra environment for the harness"""
-    def __init__(self, name, gen, decisive=True, oracle=None, nontrivial=None, env=None, exhaustive=None, rule=""):
+    def __init__(self, name, gen, decisive=True, oracle=None, nontrivial=None, env=None, exhaustive=None, rule="", model=True):
         self.name, self.gen, self.decisive, self.oracle = name, gen, decisive, oracle
+        self.model = model  # False: oracle-only suite (end-to-end run of the implementation; no model output compared)
         self.nontrivial = nontrivial or (lambda req, out: out.startswith("ok"))
         self.env, self.exhaustive, self.rule = env, exhaustive, rule
 
@@ -298,7 +299,10 @@ def run_check(pid, tier, seed):
         ts = time.time()
         reqs = [c for c in corpus.get(su.name, [])] + list(su.gen(tier, random.Random(rng.getrandbits(64))))
         impl = impl_run(reqs, su.env)
-        model = model_run(reqs) if (okc and okd) else ["?model-unavailable"] * len(reqs)
+        if not su.model:
+            model = impl
+        else:
+            model = model_run(reqs) if (okc and okd) else ["?model-unavailable"] * len(reqs)
         mism, orc_fail, nontriv = [], [], set()
         dist = {}
         for i, req in enumerate(reqs):
